@@ -21,7 +21,7 @@ PROPS = {
     },
     'C12': {
         'level': 'exploration',
-        'custom': [('contracts.b_structs', 'bounded_modelhash')],
+        'custom': [('contracts.b_structs', 'bounded_modelhash'), ('contracts.b_structs', 'bounded_value_classes')],
         'assumptions': [],
         'explanation': 'bounded contract check only',
     },
